@@ -21,6 +21,10 @@ theorem c04_ladder_contains : allSigs.all (checkC04 mockProbe executeDef) = true
 theorem gen_checkC04 (sig : Sig) : checkC04 genCfg.probe genCfg.exec sig = true :=
   forall_sig_of_all c04_ladder_contains sig
 
+/-- `Sandbox._import` (a student file imported by the running code) has no handlers of its own and does not touch
+    the mocking: a failure inside the imported file reaches `_execute`'s ladder like any other (read from its AST). -/
+theorem c04_import_transparent : importDef.transparent = true := by decide
+
 /-- An exception C04 speaks about: Exception or SystemExit subclass. -/
 def ExcDesc.containable (e : ExcDesc) : Prop := e.isException = true ∨ e.isSystemExit = true
 
@@ -31,37 +35,37 @@ instance (e : ExcDesc) : Decidable e.containable := by unfold ExcDesc.containabl
 instance (e : ExcDesc) : Decidable e.safe := by unfold ExcDesc.safe; infer_instance
 
 /-- The call returns normally to the instructor script. -/
-theorem c04_contained (style : TraceStyle) (s : St) (hs : s.Inv) (t : Termination) (e : ExcDesc)
+theorem c04_contained (style : TraceStyle) (nested : Bool) (s : St) (hs : s.Inv) (t : Termination) (e : ExcDesc)
     (ht : t.exc? = some e) (hc : e.containable) (hz : e.safe) :
-    (execute genCfg style s t false).2 = .returned :=
-  (execute_contains genCfg gen_checkC04 style s hs t e ht hc hz).1
+    (execute genCfg style nested s t false).2 = .returned :=
+  (execute_contains genCfg gen_checkC04 style nested s hs t e ht hc hz).1
 
 /-- The failure is available as the sandbox's exception (builtin KeyError as pedal's KeyError). -/
-theorem c04_exception_available (style : TraceStyle) (s : St) (hs : s.Inv) (t : Termination) (e : ExcDesc)
+theorem c04_exception_available (style : TraceStyle) (nested : Bool) (s : St) (hs : s.Inv) (t : Termination) (e : ExcDesc)
     (ht : t.exc? = some e) (hc : e.containable) (hz : e.safe) :
-    (execute genCfg style s t false).1.exception = some (if e.isKeyError then "KeyError" else e.cls) :=
-  (execute_contains genCfg gen_checkC04 style s hs t e ht hc hz).2.1
+    (execute genCfg style nested s t false).1.exception = some (if e.isKeyError then "KeyError" else e.cls) :=
+  (execute_contains genCfg gen_checkC04 style nested s hs t e ht hc hz).2.1
 
 /-- Exactly one runtime feedback is added, of the class `EXCEPTION_FF_MAP` gives for the exact exception
     class (else the generic one), naming that class. -/
-theorem c04_exactly_one_runtime_feedback (style : TraceStyle) (s : St) (hs : s.Inv) (t : Termination)
+theorem c04_exactly_one_runtime_feedback (style : TraceStyle) (nested : Bool) (s : St) (hs : s.Inv) (t : Termination)
     (e : ExcDesc) (ht : t.exc? = some e) (hc : e.containable) (hz : e.safe) :
-    ∃ fb : Fb, (execute genCfg style s t false).1.feedbacks = s.feedbacks ++ [fb] ∧
+    ∃ fb : Fb, (execute genCfg style nested s t false).1.feedbacks = s.feedbacks ++ [fb] ∧
       fb.excName = reportedCls e ∧
       fb.label = (ffMap.lookup (reportedCls e)).getD genericLabel ∧
       fb.line = chooseLine lineStrategy e :=
-  ⟨_, (execute_contains genCfg gen_checkC04 style s hs t e ht hc hz).2.2, rfl, rfl, rfl⟩
+  ⟨_, (execute_contains genCfg gen_checkC04 style nested s hs t e ht hc hz).2.2, rfl, rfl, rfl⟩
 
 /-- The feedback classes are in the `runtime` category (read from `runtime_error.category`). -/
 theorem c04_runtime_category : runtimeCategory = "runtime" := by decide
 
 /-- … located on the student's own line: the innermost student-file frame of the traceback, wherever the
     exception object was created (library, pedal's mocked builtins, a called function). -/
-theorem c04_location_on_student_line (style : TraceStyle) (s : St) (hs : s.Inv) (t : Termination)
+theorem c04_location_on_student_line (style : TraceStyle) (nested : Bool) (s : St) (hs : s.Inv) (t : Termination)
     (e : ExcDesc) (ht : t.exc? = some e) (hc : e.containable) (hz : e.safe)
     (l : Nat) (hl : lastLine .student e.frames = some l) :
-    ∃ fb : Fb, (execute genCfg style s t false).1.feedbacks = s.feedbacks ++ [fb] ∧ fb.line = some l := by
-  refine ⟨_, (execute_contains genCfg gen_checkC04 style s hs t e ht hc hz).2.2, ?_⟩
+    ∃ fb : Fb, (execute genCfg style nested s t false).1.feedbacks = s.feedbacks ++ [fb] ∧ fb.line = some l := by
+  refine ⟨_, (execute_contains genCfg gen_checkC04 style nested s hs t e ht hc hz).2.2, ?_⟩
   have hstrat : genCfg.strategy = .studentFirst := by decide
   simp [chooseLine, hstrat, hl]
 
@@ -72,11 +76,11 @@ theorem c04_location_of_compile_failure (e : ExcDesc) (l : Nat) (hf : e.frames =
   simp [chooseLine, hstrat, hf, hl, lastLine]
 
 /-- A run that ends normally returns, reports nothing and leaves no exception. -/
-theorem c04_normal_run_reports_nothing (style : TraceStyle) (s : St) (hs : s.Inv) (inject : Bool) :
-    (execute genCfg style s .normal inject).2 = .returned ∧
-    (execute genCfg style s .normal inject).1.exception = none ∧
-    (execute genCfg style s .normal inject).1.feedbacks = s.feedbacks :=
-  execute_normal genCfg gen_checkC04 style s hs inject
+theorem c04_normal_run_reports_nothing (style : TraceStyle) (nested : Bool) (s : St) (hs : s.Inv) (inject : Bool) :
+    (execute genCfg style nested s .normal inject).2 = .returned ∧
+    (execute genCfg style nested s .normal inject).1.exception = none ∧
+    (execute genCfg style nested s .normal inject).1.feedbacks = s.feedbacks :=
+  execute_normal genCfg gen_checkC04 style nested s hs inject
 
 /-- Everything the default configuration blocks raises an ordinary Exception (probed by using each once),
     hence is contained and reported by the theorems above; the documented block list is present. -/
@@ -97,15 +101,15 @@ def Op.fails (op : Op) : Bool := op.executes && op.term.exc?.isSome
 
 /-- An op within C04's quantifier: no injected fault, a restoring tracer style, and a containable, safe failure. -/
 def Op.Contained (op : Op) : Prop :=
-  op.inject = false ∧ TraceOK op.style ∧ ∀ e, op.term.exc? = some e → e.containable ∧ e.safe
+  op.inject = false ∧ TraceOK op.style op.nested ∧ ∀ e, op.term.exc? = some e → e.containable ∧ e.safe
 
 theorem stepOp_contained (s : St) (hs : s.Inv) (op : Op) (hop : op.Contained) :
     (stepOp genCfg s op).2.1 = .returned ∧
     (stepOp genCfg s op).1.feedbacks.length = s.feedbacks.length + (if op.fails then 1 else 0) := by
   obtain ⟨hinj, _, hexc⟩ := hop
   have key : ∀ (hx : op.executes = true),
-      (execute genCfg op.style s op.term op.inject).2 = .returned ∧
-      (execute genCfg op.style s op.term op.inject).1.feedbacks.length =
+      (execute genCfg op.style op.nested s op.term op.inject).2 = .returned ∧
+      (execute genCfg op.style op.nested s op.term op.inject).1.feedbacks.length =
         s.feedbacks.length + (if op.fails then 1 else 0) := by
     intro hx
     rw [hinj]
@@ -113,12 +117,12 @@ theorem stepOp_contained (s : St) (hs : s.Inv) (op : Op) (hop : op.Contained) :
     | none =>
       have hn : op.term = .normal := by
         cases hterm : op.term <;> simp [hterm, Termination.exc?] at ht ⊢
-      have := c04_normal_run_reports_nothing op.style s hs false
+      have := c04_normal_run_reports_nothing op.style op.nested s hs false
       simp [hn] at this ⊢
       simp [Op.fails, hn, Termination.exc?, this.1, this.2.2]
     | some e =>
       obtain ⟨hc, hz⟩ := hexc e ht
-      have := execute_contains genCfg gen_checkC04 op.style s hs op.term e ht hc hz
+      have := execute_contains genCfg gen_checkC04 op.style op.nested s hs op.term e ht hc hz
       simp [Op.fails, hx, ht, this.1, this.2.2]
   unfold stepOp
   split
@@ -140,7 +144,7 @@ theorem stepOp_contained (s : St) (hs : s.Inv) (op : Op) (hop : op.Contained) :
     `c05_restored_after_op` in PedalProofs/C05.lean): an execution started with empty patch / stdout stacks
     ends with empty stacks. -/
 def StacksRestored : Prop :=
-  ∀ (s : St) (op : Op), s.Inv → TraceOK op.style → (stepOp genCfg s op).1.Inv
+  ∀ (s : St) (op : Op), s.Inv → TraceOK op.style op.nested → (stepOp genCfg s op).1.Inv
 
 /-- Over ANY sequence of run / call / evaluate whose failures are containable: every call returns to the
     instructor script and each failing execution adds exactly one runtime feedback. -/
@@ -172,11 +176,11 @@ def exampleZde : ExcDesc :=
 def exampleExit : ExcDesc :=
   { cls := "SystemExit", isException := false, isSystemExit := true, isKeyError := false, hazards := [],
     synLine := none, frames := [{ kind := .student, line := 2 }] }
-def exampleStyle04 : TraceStyle := { name := "native", installs := true, restores := true }
+def exampleStyle04 : TraceStyle := { name := "native", installs := true, restores := true, restoresNested := true }
 def exampleOps04 : List Op :=
-  [{ entry := .call true, style := exampleStyle04, inject := false, term := .raised exampleZde },
-   { entry := .run, style := exampleStyle04, inject := false, term := .raised exampleExit },
-   { entry := .run, style := exampleStyle04, inject := false, term := .normal }]
+  [{ entry := .call true, style := exampleStyle04, nested := true, inject := false, term := .raised exampleZde },
+   { entry := .run, style := exampleStyle04, nested := false, inject := false, term := .raised exampleExit },
+   { entry := .run, style := exampleStyle04, nested := false, inject := false, term := .normal }]
 
 example : (runOps genCfg St.init exampleOps04).feedbacks =
     [{ label := "zero_division_error", excName := "ZeroDivisionError", line := some 3 },
@@ -187,19 +191,19 @@ example : exampleZde.containable ∧ exampleZde.safe := by decide
 
 /-- The property as stated: whatever exception OBJECT the student code raises. -/
 def C04_Contained_Full : Prop :=
-  ∀ (style : TraceStyle) (s : St), s.Inv → ∀ (t : Termination) (e : ExcDesc), t.exc? = some e → e.containable →
-    (execute genCfg style s t false).2 = .returned
+  ∀ (style : TraceStyle) (nested : Bool) (s : St), s.Inv → ∀ (t : Termination) (e : ExcDesc), t.exc? = some e → e.containable →
+    (execute genCfg style nested s t false).2 = .returned
 
 /-- Excluded region: the exception object has a hazard the tree does not guard. -/
 def ExcludedExc (e : ExcDesc) : Bool := hazardous unguarded e
 
-theorem c04_contained_partial (style : TraceStyle) (s : St) (hs : s.Inv) (t : Termination) (e : ExcDesc)
+theorem c04_contained_partial (style : TraceStyle) (nested : Bool) (s : St) (hs : s.Inv) (t : Termination) (e : ExcDesc)
     (ht : t.exc? = some e) (hc : e.containable) (hx : ExcludedExc e = false) :
-    (execute genCfg style s t false).2 = .returned :=
-  c04_contained style s hs t e ht hc hx
+    (execute genCfg style nested s t false).2 = .returned :=
+  c04_contained style nested s hs t e ht hc hx
 
 theorem c04_contained_full_of_no_excluded (h : ∀ e, ExcludedExc e = false) : C04_Contained_Full :=
-  fun style s hs t e ht hc => c04_contained_partial style s hs t e ht hc (h e)
+  fun style nested s hs t e ht hc => c04_contained_partial style nested s hs t e ht hc (h e)
 
 /-- In the generated ladder, an Exception whose recording raises is not contained (evaluated, all signatures). -/
 def escapeCheck : Bool :=
@@ -214,7 +218,7 @@ theorem c04_contained_counterexample (hx : unguarded ≠ []) (hc : escapeCheck =
   obtain ⟨h, rest, hu⟩ := List.exists_cons_of_ne_nil hx
   let e : ExcDesc := { cls := "E", isException := true, isSystemExit := false, isKeyError := false,
                        hazards := [h], synLine := none, frames := [{ kind := .student, line := 1 }] }
-  have hret := hfull exampleStyle04 St.init (by decide) (.raised e) e rfl (Or.inl rfl)
+  have hret := hfull exampleStyle04 false St.init (by decide) (.raised e) e rfl (Or.inl rfl)
   have hhaz : hazardous genCfg.unguarded e = true := by
     show hazardous unguarded e = true
     simp [hazardous, e, hu]
